@@ -1193,8 +1193,25 @@ func c07MethodIsAToken(c *Ctx) {
 		if cv, ok := v.(*ssa.Convert); ok {
 			v = ir.Resolve(cv.X)
 		}
-		if _, ok := v.(*ssa.Slice); !ok {
+		sl, ok := v.(*ssa.Slice)
+		if !ok {
 			bad = "the method handed to OnMethod at " + c.Pos(cs.In) + " is not the bytes of the request line (" + c.P.Desc(arg) + "): net/http reports the method as it was sent ('get' stays 'get'), so the delivered method differs"
+		} else {
+			// exactly the token: from the token start to the byte before the delimiter under the loop index
+			var idx ssa.Value
+			for _, b := range parse.Blocks {
+				for _, in := range b.Instrs {
+					if ia, isIA := in.(*ssa.IndexAddr); isIA && idx == nil {
+						if _, isPhi := ia.Index.(*ssa.Phi); isPhi && ia.X == sl.X {
+							idx = ia.Index
+						}
+					}
+				}
+			}
+			_, lowIsVar := sl.Low.(*ssa.Phi)
+			if sl.High == nil || sl.High != idx || !lowIsVar {
+				bad = "the method handed to OnMethod at " + c.Pos(cs.In) + " is " + c.P.Desc(v) + ", not the token data[start:i] that ends before the delimiter under the loop index: the delivered method is not the one that was sent"
+			}
 		}
 	}
 	c.Cond(bad == "", ob, fnKey(c.P, parse, "the method is reported as sent"), pos, "OnMethod(string(data[start:i]))", bad)
